@@ -18,6 +18,22 @@ CLAIMED = {
              "the bit-identical value. Exploration: evidence, not proof.",
         note="Trusts numpy/scipy, my reference matcher (cross-checked against enumeration on every small case), and "
              "that any permutation of a str-keyed set is a legal CPython order."),
+    "C06": dict(
+        design="4/C06", engine="order",
+        technique="deterministic simulation: scheduler-owned set-iteration orders (SimSet) + real PYTHONHASHSEED "
+                  "interpreters; every returned matching validated as a certificate (coverage, row costs, max/sum == "
+                  "distance, same distance without matching under an independent order)",
+        text="Seeded search over (finite diagram pair x set order x representation). The bottleneck matching varies "
+             "with the order, so it is re-validated under every simulated order and real hash seed; no tie-break is "
+             "assumed. The Wasserstein half is the fault-free control (deterministic solver). Exploration.",
+        note="Trusts my cost formulas and numpy; Wasserstein cross costs compared with the sqrt(eps) tolerance of DESIGN.md 3."),
+    "C07": dict(
+        design="4/C07", engine="order",
+        technique="deterministic simulation: each side of each metric/invariance law evaluated under its own "
+                  "scheduler-owned set order or its own real PYTHONHASHSEED interpreter; metamorphic oracles",
+        text="Seeded search over diagram triples up to 60 (quick) / 300 (thorough) points; ten laws from the statement, "
+             "bottleneck clauses exact or rel 1e-12, Wasserstein clauses with the documented tolerance. Exploration.",
+        note="Laws are necessary conditions; optimality itself is C01's oracle. Wasserstein tolerance is 1e-6*(M+N)*max|coord|."),
 }
 
 NOT_APPLICABLE = {
